@@ -52,3 +52,17 @@ Proof.
   - apply String.eqb_eq. exact H4.
 Qed.
 Print Assumptions C18_valid_implies_fields.
+
+(* Dolev-Yao reading: if the keys the SP trusts have signed nothing but (canonical equivalents of)
+   the elements of H, then a logout response reported valid reads - Destination, Issuer, status,
+   IssueInstant - exactly as one of those elements does: nothing an attacker added around, before
+   or after the signed content (comments, other signatures, KeyInfo, re-ordered namespace
+   declarations) takes part in the decision. *)
+Theorem C18_valid_is_signed_content :
+  forall cfg H now r, honest_signers cfg H r -> validate_logout cfg now (DRoot r) = Ok tt ->
+    exists h resp, In h H /\ un_response_named "LogoutResponse" h = Ok resp /\
+                   un_response_named "LogoutResponse" r = Ok resp /\
+                   r_dest resp = slo_url cfg /\ r_issuer resp = Some (idp_entity cfg) /\
+                   r_status resp = STATUS_SUCCESS /\ now <= r_issue resp + max_issue_delay cfg.
+Proof. exact logout_valid_is_signed_content. Qed.
+Print Assumptions C18_valid_is_signed_content.
